@@ -12,6 +12,10 @@ DESCR = {
                          "generated/DriverGen.v; the refinement generated code -> model (proofs/DriverTie.v, for all arguments) is "
                          "compiled with the property's theorem file; one case per translated function"),
     "translate_core": ("G:tracker source translator", "see core_units.g_unit"),
+    "translate_pop": ("G:population split source translator",
+                      "ast translation (harness/pytrans.py, fail-closed) of split(positions_l, population) of pop_opt/base_population_optimizer.py "
+                      "(two nested for loops, ceiling division pinned by text) into generated/PopGen.v; _create_population pinned by digest; "
+                      "proofs/PopTie.v proves the round-robin schedule theorem for the generated code"),
     "translate_finish": ("G:finish_search source translator",
                          "ast translation (harness/pytrans.py, fail-closed) of Search.finish_search (search.py) into generated/FinishGen.v over the "
                          "record of what it reads and publishes; the converter calls are the model's functions behind returnNoneIfArgNone (pinned by "
@@ -80,7 +84,7 @@ def g_unit(ctx, modname):
     return u
 
 
-ALL_TRANSLATORS = ["translate_core", "translate_driver", "translate_grid", "translate_search", "translate_memory", "translate_results", "translate_coreopt", "translate_init", "translate_smbo", "translate_finish"]
+ALL_TRANSLATORS = ["translate_core", "translate_driver", "translate_grid", "translate_search", "translate_memory", "translate_results", "translate_coreopt", "translate_init", "translate_smbo", "translate_finish", "translate_pop"]
 
 
 def refresh_all(ctx):
